@@ -246,6 +246,64 @@ class AnchorCoverage:
         }
 
 
+def pick(*specs):
+    """Resolve 'module:dotted.attr' strings to objects; anchors that no longer exist are simply left out.
+
+    Anchor coverage is a diagnostic, never a verdict: a refactoring that renames a private helper must not
+    break a check, so nothing here may raise.
+    """
+    import importlib
+
+    out = {}
+    for spec in specs:
+        mod, _, path = spec.partition(":")
+        try:
+            obj = importlib.import_module(mod)
+            for part in path.split("."):
+                obj = obj.__dict__[part] if isinstance(obj, type) and part in obj.__dict__ else getattr(obj, part)
+            out[path] = obj
+        except Exception:
+            continue
+    return out
+
+
+def module_codes(*modules):
+    """Every code object defined in the given modules (functions, methods, nested code): failpoint targets."""
+    import importlib
+    import types
+
+    codes = []
+    for name in modules:
+        try:
+            m = importlib.import_module(name)
+        except Exception:
+            continue
+        seen = set()
+
+        def visit(obj):
+            if id(obj) in seen:
+                return
+            seen.add(id(obj))
+            obj = getattr(obj, "__wrapped__", obj)
+            if isinstance(obj, (staticmethod, classmethod)):
+                obj = obj.__func__
+            if isinstance(obj, property):
+                for f in (obj.fget, obj.fset, obj.fdel):
+                    if f is not None:
+                        visit(f)
+                return
+            if isinstance(obj, types.FunctionType):
+                if obj.__code__.co_filename == getattr(m, "__file__", None):
+                    codes.extend(_walk_code(obj.__code__))
+            elif isinstance(obj, type) and getattr(obj, "__module__", None) == m.__name__:
+                for v in list(vars(obj).values()):
+                    visit(v)
+
+        for v in list(vars(m).values()):
+            visit(v)
+    return codes
+
+
 def _code_of(fn):
     fn = getattr(fn, "__wrapped__", fn)
     if isinstance(fn, property):
@@ -344,7 +402,11 @@ def harness_frame(tb):
 
 
 def run_shard(mod, ctx, replay_case=None):
-    cov = AnchorCoverage(mod.anchors() if hasattr(mod, "anchors") else {})
+    try:
+        anchor_funcs = mod.anchors() if hasattr(mod, "anchors") else {}
+    except Exception:
+        anchor_funcs = {}
+    cov = AnchorCoverage(anchor_funcs)
     cov.start()
     status = "ok"
     reason = ""
